@@ -896,9 +896,10 @@ def gen_test(rng, env, quick):
         else:
             truthful = k != fail_nonvariant_at
         plan.append({"pref": rng.choice(kinds), "truthful": truthful, "fixed": False})
-    if rng.random() < 0.05 and test["cases"]:
-        # exercise the runner's inputs-overlay-error branch (shimmed _overlay)
-        c = rng.choice(test["cases"])
+    if rng.random() < 0.12 and test["cases"] and inputs:
+        # exercise the runner's inputs-overlay-error branch (shimmed _overlay), mostly in variants
+        vs = [c for c in test["cases"][:-1] if c.get("variant") and not c.get("skip")]
+        c = rng.choice(vs) if vs and rng.random() < 0.75 else rng.choice(test["cases"])
         c.setdefault("inputOverrides", {})[ERR_KEY] = 1
     return fn, test, plan
 
